@@ -69,3 +69,227 @@ Example C03_set_prm_example :
         PtxSend (mkHeader 7 2 (Some 61) (Some 62) (FcRequest FcbFirst RqSrdLow))
                 [168; 1; 100; 11; 18; 52; 3; 170; 187]).
 Proof. reflexivity. Qed.
+
+(* ====================================================================================================
+   C03 (phase 2): HISTORY theorems.
+
+   Histories: `history pa a o tr` (Proofs/DpHistory.v) = tr is the wire trace of ANY sequence of calls on a
+   freshly constructed peripheral with address a and options o -- transmit_telegram, receive_reply with ANY
+   telegram (every response status, wrong SAPs, short PDUs, SC), time-out / abandoned request (lost request
+   or lost reply), request_diagnostics(), pi_q writes, in any order -- that does not panic and respects the
+   FdlApplication contract projected to one peripheral (`contract_p`).  A power cycle of the device is, for
+   the master, a stretch of time-outs and/or diagnostics replies with Prm_Req.
+   Bring-up monitors, functions of the wire trace alone (Proofs/C03Proofs.v):
+   - `bringup_phase` = DpOracle.c03_step per peripheral (the oracle run on the implementation's transcripts):
+     NeedDiag -accepted Slave_Diag reply-> DiagAnswered -Set_Prm acknowledged (SC)-> PrmAcked -Chk_Cfg
+     acknowledged (SC)-> CfgAcked -accepted diagnostics reply without Prm_Fault 0x40, Cfg_Fault 0x04,
+     Station_Not_Ready 0x02 (and without Prm_Req)-> Ready; an accepted diagnostics reply carrying Prm_Req 0x100
+     sets DiagAnswered from every phase, also from Ready (fix F16: the reply that asks IS the answered
+     diagnostics request of the restarted bring-up, DESIGN 4.0); "considered offline" = the events Offline
+     (retry exhaustion), ParameterError, ConfigError reset to NeedDiag;
+   - `strict_phase`: wire and Offline event only -- the faults are read from the flags of the diagnostics reply
+     that validates the configuration -- and with one more reset: a Data_Exchange reply "service not activated"
+     sends Ready back to CfgAcked.  The invariant of DpHistory.v ties pe_state to strict_phase EXACTLY
+     (Offline/NeedDiag, WaitForParam/DiagAnswered, WaitForConfig/PrmAcked, ValidateConfig/CfgAcked,
+     PreDataExchange and DataExchange/Ready) and bringup_phase to it (equal, or Ready while strict is CfgAcked). *)
+From PB Require Import DpOracle DpHistory C03Proofs.
+
+(* Whenever a Data_Exchange request (a request on the default SAP) is emitted, the bring-up monitor is in
+   Ready -- both versions --, and the request is an SRD-high request from the master to the peripheral *)
+Theorem C03_order : forall pa a o tr,
+  1 <= p_max_retry pa -> history pa a o tr ->
+  forall pre h pdu post,
+  tr = pre ++ WReq h pdu :: post ->
+  h_dsap h = None ->
+  bringup_phase pre = PhReady /\ strict_phase pre = PhReady /\
+  h = mkHeader a (p_address pa) None None (h_fc h) /\ (exists f, h_fc h = FcRequest f RqSrdHigh).
+Proof. exact order. Qed.
+Print Assumptions C03_order.
+
+(* stronger: EVERY request is the one its phase calls for: Slave_Diag (60) only in NeedDiag, CfgAcked (readiness
+   check) and Ready (user-requested / announced diagnostics); Set_Prm (61) only in DiagAnswered; Chk_Cfg (62)
+   only in PrmAcked; Data_Exchange only in Ready *)
+Theorem C03_each_request_in_order : forall pa a o tr,
+  1 <= p_max_retry pa -> history pa a o tr ->
+  forall pre h pdu post,
+  tr = pre ++ WReq h pdu :: post ->
+  match h_dsap h with
+  | None => strict_phase pre = PhReady
+  | Some d =>
+      (d = 60 /\ (strict_phase pre = PhNeedDiag \/ strict_phase pre = PhCfgAcked \/ strict_phase pre = PhReady)) \/
+      (d = 61 /\ strict_phase pre = PhDiagAnswered) \/
+      (d = 62 /\ strict_phase pre = PhPrmAcked)
+  end.
+Proof. exact each_request_in_order. Qed.
+Print Assumptions C03_each_request_in_order.
+
+(* the monitors of the statements above are the ghost fields of the invariant *)
+Theorem C03_monitors_are_ghost : forall tr,
+  bringup_phase tr = gh_text (ghost_of tr) /\ strict_phase tr = gh_phase (ghost_of tr).
+Proof. exact monitors_are_ghost. Qed.
+Print Assumptions C03_monitors_are_ghost.
+
+(* Every request goes to the standard service access points, LITERALLY: Slave_Diag DSAP 60, Set_Prm DSAP 61,
+   Chk_Cfg DSAP 62, each from the master's SSAP 62 as SRD low; Data_Exchange on the default SAP as SRD high;
+   always from the master's address to the peripheral's.  (A changed constant in consts.rs / peripheral.rs
+   regenerates Generated/Consts.v + DpTables.v and breaks this proof.)  History form ... *)
+Theorem C03_requests_use_standard_saps : forall pa a o tr,
+  1 <= p_max_retry pa -> history pa a o tr ->
+  forall pre h pdu post,
+  tr = pre ++ WReq h pdu :: post ->
+  h_da h = a /\ h_sa h = p_address pa /\
+  exists f,
+    (h_dsap h = Some 60 /\ h_ssap h = Some 62 /\ h_fc h = FcRequest f RqSrdLow /\ pdu = []) \/
+    (h_dsap h = Some 61 /\ h_ssap h = Some 62 /\ h_fc h = FcRequest f RqSrdLow) \/
+    (h_dsap h = Some 62 /\ h_ssap h = Some 62 /\ h_fc h = FcRequest f RqSrdLow) \/
+    (h_dsap h = None /\ h_ssap h = None /\ h_fc h = FcRequest f RqSrdHigh).
+Proof. exact history_saps. Qed.
+Print Assumptions C03_requests_use_standard_saps.
+
+(* ... and one-step form over ALL peripheral states, reachable or not: which SAPs in which state *)
+Theorem C03_standard_saps_all_states : forall pa op p p' h pdu,
+  p_transmit pa op p = Ok (p', PtxSend h pdu) ->
+  h_da h = pe_addr p /\ h_sa h = p_address pa /\
+  match pe_state p with
+  | PsOffline | PsValidateConfig =>
+      h_dsap h = Some 60 /\ h_ssap h = Some 62 /\ h_fc h = FcRequest (pe_fcb p) RqSrdLow /\ pdu = []
+  | PsWaitForParam => h_dsap h = Some 61 /\ h_ssap h = Some 62 /\ h_fc h = FcRequest (pe_fcb p) RqSrdLow
+  | PsWaitForConfig => h_dsap h = Some 62 /\ h_ssap h = Some 62 /\ h_fc h = FcRequest (pe_fcb p) RqSrdLow
+  | PsPreDataExchange | PsDataExchange =>
+      (h_dsap h = Some 60 /\ h_ssap h = Some 62 /\ h_fc h = FcRequest (pe_fcb p) RqSrdLow /\ pdu = []) \/
+      (h_dsap h = None /\ h_ssap h = None /\ h_fc h = FcRequest (pe_fcb p) RqSrdHigh)
+  end.
+Proof. exact transmit_saps. Qed.
+Print Assumptions C03_standard_saps_all_states.
+
+(* Global_Control goes to the broadcast address 127, DSAP 58 from SSAP 62, unacknowledged (SDN low) *)
+Theorem C03_global_control_saps : forall pa,
+  gc_header pa = mkHeader 127 (p_address pa) (Some 58) (Some 62) (FcRequest FcbInactive RqSdnLow).
+Proof. exact gc_saps. Qed.
+Print Assumptions C03_global_control_saps.
+
+(* and a diagnostics reply is accepted only from the peripheral's SSAP 60 to the master's DSAP 62 *)
+Theorem C03_diag_reply_saps : forall p t p1 d,
+  p_handle_diag p t = Ok (p1, Some d) ->
+  exists h pdu, t = TData h pdu /\ h_dsap h = Some 62 /\ h_ssap h = Some 60 /\ (6 <= length pdu)%nat.
+Proof. exact diag_reply_saps. Qed.
+Print Assumptions C03_diag_reply_saps.
+
+(* The Set_Prm PDU for ALL option values and parameters: Lock_Req 0x80 | Sync_Req 0x20 | Freeze_Req 0x10 |
+   WD_On 0x08, the two watchdog factors, min Tsdr, ident number high / low, group mask, then the user
+   parameters (extends C03_set_prm_bytes, which fixes the peripheral state) ... *)
+Theorem C03_set_prm_layout : forall pa o user,
+  set_prm_pdu pa o user =
+  [128 + (if o_sync o then 32 else 0) + (if o_freeze o then 16 else 0)
+       + (match p_watchdog pa with Some _ => 8 | None => 0 end);
+   match p_watchdog pa with Some (f1, _) => f1 | None => 0 end;
+   match p_watchdog pa with Some (_, f2) => f2 | None => 0 end;
+   p_min_tsdr_bits pa; o_ident o / 256; o_ident o mod 256; o_groups o] ++ user.
+Proof. exact set_prm_layout. Qed.
+Print Assumptions C03_set_prm_layout.
+
+(* ... and in EVERY history, for all option values: every Set_Prm request carries exactly that PDU for the
+   configured options and user parameters, every Chk_Cfg request exactly the configured bytes, every
+   Slave_Diag request no payload *)
+Theorem C03_options_faithful : forall pa a o tr,
+  1 <= p_max_retry pa -> history pa a o tr ->
+  forall pre h pdu post,
+  tr = pre ++ WReq h pdu :: post ->
+  (h_dsap h = Some 61 ->
+     exists user, o_user_prm o = Some user /\
+       pdu = [128 + (if o_sync o then 32 else 0) + (if o_freeze o then 16 else 0)
+                  + (match p_watchdog pa with Some _ => 8 | None => 0 end);
+              match p_watchdog pa with Some (f1, _) => f1 | None => 0 end;
+              match p_watchdog pa with Some (_, f2) => f2 | None => 0 end;
+              p_min_tsdr_bits pa; o_ident o / 256; o_ident o mod 256; o_groups o] ++ user) /\
+  (h_dsap h = Some 62 -> exists cfg, o_config o = Some cfg /\ pdu = cfg) /\
+  (h_dsap h = Some 60 -> pdu = []).
+Proof. exact options_faithful. Qed.
+Print Assumptions C03_options_faithful.
+
+(* the Set_Prm PDU is a byte string for ident < 2^16, byte-sized group mask, min Tsdr and watchdog factors
+   (C03_watchdog_factors: the factors the builder computes are 1..255) *)
+Theorem C03_set_prm_is_bytes : forall pa o user,
+  0 <= o_ident o < 65536 -> is_byte (o_groups o) -> is_byte (p_min_tsdr_bits pa) ->
+  match p_watchdog pa with Some (f1, f2) => is_byte f1 /\ is_byte f2 | None => True end ->
+  all_bytes user ->
+  all_bytes (set_prm_pdu pa o user).
+Proof. exact set_prm_is_bytes. Qed.
+Print Assumptions C03_set_prm_is_bytes.
+
+(* non-vacuity: a complete bring-up (watchdog 1 x 100 x 10 ms, sync, groups 3), one data exchange, a
+   user-requested diagnostics request whose reply carries Prm_Req (F16), and the Set_Prm that follows; the
+   monitors before each event *)
+Example C03_history_example :
+  let pa := mkParams 2 B19200 100 32436 10 126 1 11 (Some (1, 100)) in
+  let o := mkOpts 4660 true false 3 100 false (Some [170]) (Some [17]) in
+  let dh := mkHeader 2 7 (Some 62) (Some 60) (FcResponse RsSlave StDataLow) in
+  let rq d f := mkHeader 7 2 d (match d with Some _ => Some 62 | None => None end)
+                         (FcRequest f (match d with Some _ => RqSrdLow | None => RqSrdHigh end)) in
+  let tr :=
+    [WReq (rq (Some 60) FcbFirst) []; WReply (TData dh [0; 0; 0; 2; 18; 52]) (Some EvOnline);
+     WReq (rq (Some 61) FcbLow) [168; 1; 100; 11; 18; 52; 3; 170]; WReply TShortConf None;
+     WReq (rq (Some 62) FcbHigh) [17]; WReply TShortConf None;
+     WReq (rq (Some 60) FcbLow) []; WReply (TData dh [0; 0; 0; 2; 18; 52]) (Some EvConfigured);
+     WReq (rq None FcbHigh) [9];
+     WReply (TData (mkHeader 2 7 None None (FcResponse RsSlave StDataLow)) [5]) (Some EvDataExchanged);
+     WUser;
+     WReq (rq (Some 60) FcbLow) []; WReply (TData dh [0; 1; 0; 2; 18; 52]) (Some EvDiagnostics);
+     WReq (rq (Some 61) FcbHigh) [168; 1; 100; 11; 18; 52; 3; 170]] in
+  history pa 7 o tr /\
+  map (fun n => bringup_phase (firstn n tr)) [0; 2; 4; 6; 8; 13]%nat =
+    [PhNeedDiag; PhDiagAnswered; PhPrmAcked; PhCfgAcked; PhReady; PhDiagAnswered] /\
+  map (fun n => strict_phase (firstn n tr)) [0; 2; 4; 6; 8; 13]%nat =
+    [PhNeedDiag; PhDiagAnswered; PhPrmAcked; PhCfgAcked; PhReady; PhDiagAnswered].
+Proof.
+  split; [|split; vm_compute; reflexivity].
+  exists [0], [9], 0%nat,
+    [PcTransmit OpOperate;
+     PcReply (TData (mkHeader 2 7 (Some 62) (Some 60) (FcResponse RsSlave StDataLow)) [0; 0; 0; 2; 18; 52]);
+     PcTransmit OpOperate; PcReply TShortConf; PcTransmit OpOperate; PcReply TShortConf; PcTransmit OpOperate;
+     PcReply (TData (mkHeader 2 7 (Some 62) (Some 60) (FcResponse RsSlave StDataLow)) [0; 0; 0; 2; 18; 52]);
+     PcTransmit OpOperate; PcReply (TData (mkHeader 2 7 None None (FcResponse RsSlave StDataLow)) [5]); PcReqDiag;
+     PcTransmit OpOperate;
+     PcReply (TData (mkHeader 2 7 (Some 62) (Some 60) (FcResponse RsSlave StDataLow)) [0; 1; 0; 2; 18; 52]);
+     PcTransmit OpOperate].
+  eexists. split; vm_compute; reflexivity.
+Qed.
+
+(* ====================================================================================================
+   C03 (phase 3): at the level of the DP MASTER (1..n peripherals, any storage layout).
+   Proofs/DpMasterHistory.v (see Properties/C08.v, C08_master_histories_project): every history of the DP
+   master -- any calls of transmit_telegram / receive_reply / handle_timeout / request_diagnostics() / pi_q
+   writes / enter_state() / take_last_events() respecting the FdlApplication contract `contract_m`, from any
+   master state -- projects for every slot k to a `history` of that slot's peripheral (`proj k log`), so
+   C03_order, C03_each_request_in_order, C03_requests_use_standard_saps and C03_options_faithful hold for
+   every peripheral of every master history.  Spelled out for C03_order: *)
+From PB Require Import DpMaster DpMasterHistory.
+
+Theorem C03_order_master : forall pa bufsize m0 cs m' outs log,
+  1 <= p_max_retry pa ->
+  d_run pa bufsize m0 cs [] = Ok (m', outs, log) ->
+  contract_m None outs = true ->
+  forall k a o i q d, slot m0 k = Some (periph_new a o i q d) ->
+  forall pre h pdu post,
+  proj k log = pre ++ WReq h pdu :: post ->
+  h_dsap h = None ->
+  bringup_phase pre = PhReady /\ strict_phase pre = PhReady /\
+  h = mkHeader a (p_address pa) None None (h_fc h) /\ (exists f, h_fc h = FcRequest f RqSrdHigh).
+Proof. exact order_master. Qed.
+Print Assumptions C03_order_master.
+
+(* the invariant behind all of it, and its step: EVERY peripheral call from EVERY state satisfying the
+   invariant preserves it and emits an event the monitors accept (the same engine as C08_invariant_step);
+   the invariant ties pe_state to the strict phase exactly *)
+Theorem C03_invariant_relates_state_and_phase : forall pa a o p g,
+  Inv pa a o p g ->
+  gh_phase g = match pe_state p with
+               | PsOffline => PhNeedDiag
+               | PsWaitForParam => PhDiagAnswered
+               | PsWaitForConfig => PhPrmAcked
+               | PsValidateConfig => PhCfgAcked
+               | PsPreDataExchange | PsDataExchange => PhReady
+               end /\
+  (gh_text g = gh_phase g \/ (gh_phase g = PhCfgAcked /\ gh_text g = PhReady)).
+Proof. exact state_phase_invariant. Qed.
+Print Assumptions C03_invariant_relates_state_and_phase.
